@@ -5,7 +5,8 @@ Model driver for C18 (modules). One request line = one scenario:
        (stems (<name> <stem>)*) <prelude name>*) (fs <file>*) (ops <op>*)
   file  = (f <path> bad) | (f <path> <tact>*)
   path  = (p (<dir name>*) <name> <0|1 isDir>)
-  tact  = (a <act>) | (main <mk> <act>*) | (test <name> <mk> <act>*)
+  tact  = (a <act>) | (main <mk> <act>*) | (test <name> <mk> <act>*) | (fn <key> <mk> <act>*)
+        | (callm <m> <key>) | (call <key>)
   act   = (print mk) | (export k v) | (assign k v) | (exportid k src) | (show mk k) | (import <item>*)
         | (from m <item>*) | (fromall m) | (try m mk) | (fail mk)
         | (pat <0|1 export> (<target>*) (<rhs>*))
@@ -36,12 +37,14 @@ def pathStr (p : Path) : String :=
 def errStr : Err → String
   | .recursive => "rec" | .notFound => "nf" | .compile => "compile" | .thrown => "thrown"
   | .idNotFound => "idnf" | .access => "access" | .type => "type" | .exportEntry => "exportentry"
+  | .call => "call"
 
 /-- Koto's display of a value (`{a: 1, b: {}}`), module references resolved through the cache -/
 def display (cache : Path → Option Entry) : Nat → V → String
   | _, .int n => toString n
   | _, .core _ => "<core>"
   | _, .null => "null"
+  | _, .fn _ _ => "||"
   | 0, .mref _ => "<deep>"
   | d + 1, .mref p =>
     match resolve cache (.mref p) with
@@ -55,6 +58,7 @@ def canon (cache : Path → Option Entry) : Nat → V → String
   | _, .int n => s!"i{n}"
   | _, .core _ => "<core>"
   | _, .null => "null"
+  | _, .fn _ _ => "<fn>"
   | 0, .mref _ => "<deep>"
   | d + 1, .mref p =>
     match resolve cache (.mref p) with
@@ -135,6 +139,9 @@ def pTAct : Sexp → Option TAct
   | .list [.atom "a", a] => do pure (.act (← pAct a))
   | .list (.atom "main" :: mk :: body) => do pure (.defMain (← mk.nat?) (← body.mapM pAct))
   | .list (.atom "test" :: n :: mk :: body) => do pure (.defTest (← n.nat?) (← mk.nat?) (← body.mapM pAct))
+  | .list (.atom "fn" :: k :: mk :: body) => do pure (.exportFn (← k.nat?) (← mk.nat?) (← body.mapM pAct))
+  | .list [.atom "callm", m, k] => do pure (.callMember (← m.nat?) (← k.nat?))
+  | .list [.atom "call", k] => do pure (.call (← k.nat?))
   | _ => none
 
 def pFile : Sexp → Option (Path × File)
